@@ -859,6 +859,15 @@ func (vc *VC) trCall(env *SpecEnv, c *ECall) Val {
 			return boolVal(fmt.Sprintf("(not (= %s 0))", v.T))
 		}
 		return boolVal(fmt.Sprintf("(and (not (= %s 0)) (implements (dyntype %s) %d))", v.T, v.T, vc.typeTag(t)))
+	case "fn":
+		// fn(Name): the value of the named function / capture-free closure of the contract's package
+		if env.pkg != nil {
+			if f := vc.eng.findFunc(&FuncSpec{Pkg: env.pkg.Path(), Name: exprName(c.Args[0])}); f != nil {
+				return Val{T: vc.fnConst(f), Typ: types.Typ[types.Int]}
+			}
+		}
+		vc.specErr("fn(%s): no such function", exprName(c.Args[0]))
+		return intVal("0")
 	case "typeis":
 		v := arg(0)
 		t := vc.resolveType(env, exprName(c.Args[1]))
